@@ -14,16 +14,19 @@ TraceInit == l = 1 /\ RInit
 TOpen ==
   /\ IsEvent("open")
   /\ ROpen(0..(R.nodes - 1), [n \in 0..(R.nodes - 1) |-> R.bal[n + 1].bal], R.height,
-           R.consts.fail_back_buffer, R.consts.mpp_ticks)
+           R.consts.fail_back_buffer, R.consts.mpp_ticks, {R.underpay[i] : i \in 1..Len(R.underpay)})
 
-TReg == IsEvent("reg") /\ RReg(R.reg, R.node, R.hash, R.amt, R.min_cltv, R.expiry)
+TReg == IsEvent("reg") /\ RReg(R.reg, R.node, R.hash, R.amt, R.min_cltv, R.expiry, R.meta)
+
+\* a JSON list of [type, value] pairs as the set of custom TLVs
+TlvSet(l) == {<<l[i][1], l[i][2]>> : i \in 1..Len(l)}
 
 TSend ==
   /\ IsEvent("send")
   /\ IF R.res = "ok"
      THEN RSent([i \in 1..Len(R.parts) |->
-                   [hash |-> R.hash, dst |-> R.dst, amt |-> R.parts[i].amt, sreg |-> R.sreg, total |-> R.total,
-                    keysend |-> R.keysend, used |-> FALSE]])
+                   [hash |-> R.hash, dst |-> R.dst, amt |-> R.parts[i].amt, oamt |-> R.parts[i].oamt, sreg |-> R.sreg,
+                    total |-> R.total, tlvs |-> TlvSet(R.tlvs), meta |-> R.meta, keysend |-> R.keysend, used |-> FALSE]])
      ELSE Stutter
 
 TMsg ==
@@ -35,17 +38,17 @@ TMsg ==
 
 TDeliver ==
   /\ IsEvent("deliver")
-  /\ IF R.kind = "update_add_htlc" THEN RArrive(R.to, R.chan, R.id, R.hash, R.amt, R.cltv) ELSE Stutter
+  /\ IF R.kind = "update_add_htlc" THEN RArrive(R.to, R.chan, R.id, R.hash, R.amt, R.cltv, R.skim) ELSE Stutter
 
 TForward == IsEvent("forward") /\ RForward(R.node, {<<R.committed[i][1], R.committed[i][2]>> : i \in 1..Len(R.committed)})
 
 TEvent ==
   /\ IsEvent("event")
-  /\ CASE R.kind = "PaymentClaimable" -> RClaimable(R.node, R.hash, R.amt, R.deadline)
+  /\ CASE R.kind = "PaymentClaimable" -> RClaimable(R.node, R.hash, R.amt, R.deadline, R.skimmed, TlvSet(R.tlvs), R.meta)
        [] R.kind = "PaymentClaimed" -> RClaimedEv(R.node, R.hash, R.amt)
        [] OTHER -> Stutter
 
-TClaim == IsEvent("claim") /\ RDecide(R.node, R.hash, "claim")
+TClaim == IsEvent("claim") /\ RDecide(R.node, R.hash, IF R.known THEN "claimk" ELSE "claim")
 TFailback == IsEvent("failback") /\ RDecide(R.node, R.hash, "fail")
 TTick == IsEvent("tick") /\ RTick(R.node)
 TBlock == IsEvent("block") /\ RBlock(R.height, R.time)
@@ -59,7 +62,7 @@ TQuiet ==
 
 TOther ==
   /\ l <= Len(Rec)
-  /\ Rec[l].ev \in {"recent", "save", "restart", "disconnect", "reconnect", "handled", "abandon", "broadcast", "chain", "settle_chain", "settled", "mine_skipped"}
+  /\ Rec[l].ev \in {"recent", "save", "restart", "disconnect", "reconnect", "handled", "abandon", "broadcast", "chain", "settle_chain", "settled", "mine_skipped", "intercept"}
   /\ l' = l + 1 /\ Stutter
 
 TraceNext == TOpen \/ TReg \/ TSend \/ TMsg \/ TDeliver \/ TForward \/ TEvent \/ TClaim \/ TFailback
